@@ -46,6 +46,12 @@ ROB_ANG = {"quick": [0.3, 0.0, -0.3, math.pi, math.pi + 1e-9, 7.0, -100.0],
                         math.pi, math.pi + 1e-9, 3.5, 2 * math.pi, 7.0,
                         100.0, -100.0]}
 ROB_SHAPES = ["spheroid0.5", "spheroid2", "cyl1"]
+EDGE_ANG = [-1e-18, -5e-17, -1e-300, -0.0, 5e-324,
+            float(np.nextafter(2 * math.pi, 0.0)),
+            float(np.nextafter(2 * math.pi, 7.0)),
+            float(np.nextafter(math.pi, 0.0)),
+            float(np.nextafter(math.pi, 4.0)), -1e-16 - 2 * math.pi,
+            4 * math.pi - 1e-15]
 ROB_X = {"quick": [1.0, 30.0], "thorough": [1.0, 10.0, 30.0, 80.0]}
 CENTER = (0.17, 0.11, 8.0)
 
@@ -98,6 +104,20 @@ def cases(tier, seed):
                                   (0.0, -1e-9), (math.pi, 4.0)]):
         out.append({"id": "robust-detector-angle#%d" % i, "kind": "robustdet",
                     "theta": th, "phi": ph})
+    # angles a rounding error away from the ends of the principal range
+    # (x % 360 of a tiny negative number is 360.0 itself)
+    for i, ph in enumerate(EDGE_ANG):
+        out.append({"id": "robust-detector-angle:edge#%d" % i,
+                    "kind": "robustdet", "theta": 0.5, "phi": ph})
+        out.append({"id": "robust-detector-angle:edge-theta#%d" % i,
+                    "kind": "robustdet", "theta": abs(ph) % math.pi,
+                    "phi": 1.0})
+        for sh in ROB_SHAPES:
+            for which, (b, g) in (("gamma", (0.3, ph)), ("beta", (ph, 0.3)),
+                                  ("both", (ph, ph))):
+                out.append({"id": "robust:edge:%s:%s#%d" % (sh, which, i),
+                            "kind": "robust", "shape": sh, "x": 1.0,
+                            "beta": b, "gamma": g})
     # absurd sizes
     for sh in ROB_SHAPES[:2] + ["sphere"]:
         for x in (1e5, 1e10, 1e13):
